@@ -75,10 +75,26 @@ def records(cases, obs, key):
     return recs
 
 
+def spread(cases, rng, count):
+    """copies of `count' graphs spread over a lexicon and an extension of it (some nodes
+    and some edges belong to the extension): a Wordnet over both sees the same graph"""
+    pool = [g for g in cases if len(g['hyp']) >= 2]
+    k = max(g['id'] for g in cases)
+    for g in rng.sample(pool, min(count, len(pool))):
+        k += 1
+        h = dict(g, id=k)
+        h['xhyp'] = [i for i in range(len(g['hyp'])) if rng.random() < 0.5]
+        h['xhypo'] = [i for i in range(len(g.get('hypo', []))) if rng.random() < 0.5]
+        h['xnodes'] = [x for x in range(1, g['n'] + 1) if rng.random() < 0.2] if rng.random() < 0.5 else []
+        if not (h['xhyp'] or h['xhypo'] or h['xnodes']):
+            h['xhyp'] = [0]
+        cases.append(h)
+
+
 def c13(tier: str) -> int:
     v = Verdict('C13', tier)
     v.assumptions = [
-        'strings are atoms for TLC; graphs are materialised as one lexicon each',
+        'strings are atoms for TLC; graphs are materialised as one lexicon each, or as a lexicon and an extension of it (spread copies)',
         'on cyclic graphs with simulate_root both readings of the fake root are admissible',
         'on cyclic graphs both readings of "depth of a common hypernym" are admissible']
     thorough = tier == 'thorough'
@@ -98,6 +114,7 @@ def c13(tier: str) -> int:
         for g in rng.sample(graphs.tlc_graphs(4), 22000):
             k += 1
             cases.append(graphs.finish(g, rng, k))
+    spread(cases, random.Random(seed() + 113), 4000 if thorough else 500)
     obs = observe(cases, ['c13'])
     recs = records(cases, obs, 'c13')
     j = tlc_judge('Judge_C13', recs, cfg='Judge.cfg', shards=NCPU)
@@ -141,6 +158,7 @@ def c14(tier: str) -> int:
     rng = random.Random(seed() + 14)
     cases = graphs.cases(tier, seed() + 14, n4=800 if not thorough else 20000,
                          nrandom=250 if not thorough else 8000, maxn=7 if not thorough else 8)
+    spread(cases, random.Random(seed() + 114), 3000 if thorough else 300)
     add_weights(cases, rng)
     obs = observe(cases, ['c14'])
     recs = records(cases, obs, 'c14')
@@ -212,6 +230,7 @@ def c15(tier: str) -> int:
     for g in cases:
         if len(set('a' if p == 's' else p for p in g['pos'])) > 1:
             g['pos'] = ['n'] * g['n']
+    spread(cases, random.Random(seed() + 115), 5000 if thorough else 500)
     add_corpora(cases, rng)
     obs = observe(cases, ['c15'])
     recs = records(cases, obs, 'c15')
